@@ -44,7 +44,9 @@ RULE = ("random timelines over 1..3 subscribers x process ids x {analogValue, an
         "process ids x 1..3 objects, lifetimes from an irregular set 2..120 s incl. sorted-decreasing sequences and "
         "indefinite ones), cancels / renewals of arbitrary ones, housekeeping FunctionTasks (armed / stopped / re-armed) "
         "and a recurring task in the same task heap, and a probe (change + drain + read-back) a quarter second before "
-        "and after EVERY expiry; lockstep (every primitive event compared with the Lean model) and "
+        "and after EVERY expiry; plus end-to-end timelines with confirmed subscribers that acknowledge 0 / 0.5 / 2 s "
+        "late and bursts of 3..6 writes at one instant made as separate events (per subscription the notifications "
+        "must arrive in the order of the changes); lockstep (every primitive event compared with the Lean model) and "
         "end-to-end over a vlan. distinct = distinct model branch signatures per event "
         "(request class x detector class x list size; write x trigger/quiet/already; drain size; fired task kinds)")
 TRUSTED = ["lean/BacVerif/Model/Cov.lean is a hand transcription of service/cov.py + detect.py + the monitor call "
@@ -604,6 +606,7 @@ class NetRig:
         from bacpypes.apdu import SimpleAckPDU
         self.vt = vt
         self.cfg = cfg
+        self.ack = list(cfg.get("ack", []))          # per subscriber: delay of its SimpleAck, quarter seconds
         rig = self
         self.net = Network(broadcast_address=LocalBroadcast())
 
@@ -627,7 +630,13 @@ class NetRig:
         class Listener(Capability):
             def do_ConfirmedCOVNotificationRequest(self, apdu):
                 rig.received.append((us(rig.vt.now), self.index, True, apdu))
-                self.response(SimpleAckPDU(context=apdu))
+                delay = rig.ack[self.index] if self.index < len(rig.ack) else 0
+                if delay:
+                    # a subscriber that is slow to acknowledge (quarter seconds)
+                    from bacpypes.task import FunctionTask
+                    FunctionTask(self.response, SimpleAckPDU(context=apdu)).install_task(delta=delay / 4.0)
+                else:
+                    self.response(SimpleAckPDU(context=apdu))
 
             def do_UnconfirmedCOVNotificationRequest(self, apdu):
                 rig.received.append((us(rig.vt.now), self.index, False, apdu))
@@ -668,6 +677,19 @@ class NetRig:
     def settle(self):
         self.vt.run(until=self.vt.now)
 
+    def drain_deferred(self):
+        """only the deferred functions (what core.run does after ONE event), no task: the
+        network delivery of what was just sent has not happened yet"""
+        bcore = self.vt.bcore
+        try:
+            while bcore.deferredFns:
+                fns = bcore.deferredFns
+                bcore.deferredFns = []
+                for fn, args, kwargs in fns:
+                    fn(*args, **kwargs)
+        except Exception as e:
+            self.vt.errors.append((type(e).__name__, str(e)))
+
     def take(self):
         """[(emission time, canonical output)]"""
         out = []
@@ -691,7 +713,7 @@ class NetRig:
         self.vt.errors = []
         return out
 
-    def subscribe(self, addr, pid, obj, conf, life):
+    def subscribe(self, addr, pid, obj, conf, life, take=True):
         from bacpypes.apdu import SubscribeCOVRequest, SimpleAckPDU
         from bacpypes.iocb import IOCB
         oc = self.ocfg.get(obj)
@@ -714,7 +736,7 @@ class NetRig:
                          str(getattr(e, "errorCode", getattr(e, "apduAbortRejectReason", "")))))]
         else:
             head = [(t, ("noresponse", addr))]
-        return head + self.take()
+        return head + (self.take() if take else [])
 
     def subscribe_burst(self, reqs):
         """several SubscribeCOV requests put on the wire in the same instant, the clients not
@@ -1158,6 +1180,178 @@ def make_heap_case(rng, name):
     return {"name": name, "cfg": cfg, "actions": acts}
 
 
+def make_order_case(rng, name):
+    """subscribers that acknowledge confirmed notifications late (0 / 0.5 / 2 s) and bursts of 3..6
+    writes at ONE instant made as SEPARATE events (each followed only by the deferred functions):
+    notifications pile up in the device's per-destination queue.  Indefinite / very long
+    lifetimes, cancels and renewals only when everything is quiescent."""
+    cfg = gen_cfg(rng, nsub=rng.choice([1, 2, 2, 3]))
+    for o in cfg["objs"]:
+        o["period"] = 0
+    nsub = cfg["nsub"]
+    cfg["ack"] = [rng.choice([0, 2, 8]) for _ in range(nsub)]
+    if rng.random() < 0.7 and not any(cfg["ack"]):
+        cfg["ack"][rng.randrange(nsub)] = rng.choice([2, 8])
+    objs = {o["id"]: dict(o) for o in cfg["objs"]}
+    writable = [i for i, o in objs.items() if o["type"] in ANALOG_TYPES or o["type"] in GENERIC_TYPES]
+    cur = {i: o["pv"] for i, o in objs.items()}
+    curf = {i: o["flags"] for i, o in objs.items()}
+    acts = []
+    space = [(a, p, o) for a in range(nsub) for p in (1, 2) for o in rng.sample(writable, min(2, len(writable)))]
+    keys = rng.sample(space, min(len(space), rng.randrange(1, 5)))
+    conf = {k: rng.random() < 0.75 for k in keys}
+    maxd = max(cfg["ack"] + [0])
+
+    def flush(pending):
+        # every queued notification waits for the acknowledgement of the one before it
+        acts.append(["flush", (pending + 1) * maxd + 4])
+
+    for k in keys:
+        acts.append(["sub", k[0], k[1], k[2], conf[k], rng.choice([0, 0, 600, 900])])
+    flush(len(keys))
+    acts.append(["read"])
+
+    def write(obj):
+        o = objs[obj]
+        t = o["type"]
+        r = rng.random()
+        if r < 0.12:
+            f = (curf[obj] + rng.randrange(1, 16)) % 16
+            curf[obj] = f
+            return [obj, "fl", f]
+        if t.startswith("binary"):
+            v = 1 - cur[obj]
+        elif t.startswith("multiState"):
+            v = cur[obj] % 4 + 1
+        elif r < 0.25:
+            v = cur[obj] + max(o["inc"] - 1, 0)           # below the increment: silent
+        else:
+            v = abs(cur[obj]) + 2 * max(o["inc"], 1) + rng.randrange(1, 40)
+            if v > 60000:
+                v = 16
+        cur[obj] = v
+        return [obj, "pv", v]
+
+    for _ in range(rng.randrange(2, 5)):
+        hot = rng.choice([k[2] for k in keys])
+        n = rng.randrange(3, 7)
+        ws = [write(hot if rng.random() < 0.8 else rng.choice(writable)) for _ in range(n)]
+        acts.append(["wseq", ws])
+        pending = n * len(keys)
+        if rng.random() < 0.4:
+            acts.append(["adv", rng.choice([1, 2, 3, 5])])        # the next burst overlaps late acknowledgements
+            n2 = rng.randrange(3, 6)
+            acts.append(["wseq", [write(hot) for _ in range(n2)]])
+            pending += n2 * len(keys)
+        flush(pending)
+        acts.append(["read"])
+        r = rng.random()
+        if r < 0.25:
+            k = rng.choice(keys)
+            conf[k] = not conf[k]
+            acts.append(["sub", k[0], k[1], k[2], conf[k], rng.choice([0, 600])])
+            flush(1)
+        elif r < 0.35 and len(keys) > 1:
+            k = keys.pop(rng.randrange(len(keys)))
+            acts.append(["sub", k[0], k[1], k[2], None, None])
+            flush(0)
+    return {"name": name, "cfg": cfg, "actions": acts, "modes": ["order"]}
+
+
+def order_as_lockstep(case):
+    """the same timeline for the component rig / the model: every write followed by a drain"""
+    acts = []
+    for a in case["actions"]:
+        if a[0] == "wseq":
+            for w in a[1]:
+                acts += [["w", [w]], ["run"]]
+        elif a[0] == "flush":
+            acts += [["run"], ["adv", a[1]]]
+        elif a[0] == "sub":
+            acts += [a, ["run"]]
+        else:
+            acts.append(a)
+    c = dict(case)
+    c["actions"] = acts
+    return c
+
+
+def run_order(ctx, case, stream="e2e-order"):
+    """end to end, late acknowledgements: per subscription the notifications must ARRIVE in the
+    order of the changes they report, and once everything is quiescent the last one received
+    carries the current values"""
+    cfg, actions = case["cfg"], case["actions"]
+    rig = NetRig(cfg)
+    spec = Spec(cfg)
+    expected = []                 # notifications in the order they are due to be generated
+    failed = set()
+
+    def fail(kind, i, what, **kw):
+        if kind not in failed:
+            ctx.fail(kind, trim(case, i), what, action_index=i, scenario=case.get("name", ""), **kw)
+        failed.add(kind)
+
+    def checkpoint(i):
+        got_all = rig.take()
+        for _t, o in got_all:
+            if o[0] == "exc":
+                fail("unexpected-exception", i, "the real code raised %r" % (o[1:],))
+        got = [o for _t, o in got_all if o[0] == "ntf"]
+        keys = []
+        for o in expected + got:
+            k = (o[1], o[2], o[3])
+            if k not in keys:
+                keys.append(k)
+        for k in keys:
+            e = [o for o in expected if (o[1], o[2], o[3]) == k]
+            g = [o for o in got if (o[1], o[2], o[3]) == k]
+            if g and e and sorted(e, key=repr) == sorted(g, key=repr) and (g[-1][5], g[-1][6]) != (e[-1][5], e[-1][6]):
+                ob = spec.objs[k[2]]
+                fail("stale-last", i, "subscription %r: everything is quiescent, the last notification received "
+                     "carries (%r, %r) but the last change reported was (%r, %r) (object now (%r, %r))" % (
+                         k, g[-1][5], g[-1][6], e[-1][5], e[-1][6], ob["pv"], ob["fl"]), key=list(k))
+            if g != e:
+                if sorted(e, key=repr) == sorted(g, key=repr):
+                    fail("notify-order", i, "subscription %r: notifications arrived out of order: values %r, "
+                         "changes were reported as %r" % (k, [(o[5], o[6]) for o in g], [(o[5], o[6]) for o in e]),
+                         key=list(k))
+                else:
+                    fail("notify-count", i, "subscription %r: received %r, expected %r" % (k, g[:8], e[:8]), key=list(k))
+        del expected[:]
+
+    for i, a in enumerate(actions):
+        kind = a[0]
+        now = rig.now()
+        if kind == "sub":
+            head = spec.subscribe(now, a[1], a[2], a[3], a[4], a[5])
+            outs = rig.subscribe(a[1], a[2], a[3], a[4], a[5], take=False)
+            got_head = [cut(o) for _t, o in outs]
+            if got_head != [cut(head[0])]:
+                fail("no-ack", i, "response %r, expected %r" % (got_head, head[0]))
+            expected += spec.drain_initials(now)     # judged at the next checkpoint, in arrival order
+        elif kind == "wseq":
+            for obj, prop, v in a[1]:
+                exp, _free = spec.burst(now, [(obj, prop, v)])
+                expected += exp
+                rig.write(obj, prop, v)
+                rig.drain_deferred()
+        elif kind in ("adv", "flush"):
+            target = now + a[1] * (US // 4)
+            expected += [o for _t, o in spec.advance(now, target)]
+            rig.vt.run(until=target / US)
+            if kind == "flush":
+                checkpoint(i)
+        elif kind == "read":
+            rows, err = rig.read(0)
+            if rows is None:
+                fail("active-list", i, "activeCovSubscriptions could not be read: %s" % err)
+            elif rows != spec.rows(now):
+                fail("active-list", i, "activeCovSubscriptions %r, live subscriptions %r" % (rows, spec.rows(now)))
+        ctx.count(stream, (kind, len(a[1]) if kind == "wseq" else None, max(cfg.get("ack", [0]) + [0])) if kind != "sub"
+                  else ("sub", a[4], a[5] is None))
+    return failed
+
+
 def is_disciplined(actions):
     actions = [a for a in actions if a[0] != "hk"]
     for i, a in enumerate(actions):
@@ -1495,6 +1689,11 @@ def shard(ctx, spec):
         elif kind == "heap":
             case = make_heap_case(rng, "heap-%d-%d" % (idx, j))
             run_lockstep(ctx, case, "lockstep-many")
+        elif kind == "order":
+            case = make_order_case(rng, "order-%d-%d" % (idx, j))
+            run_order(ctx, case)
+            if j % 3 == 0:
+                run_lockstep(ctx, order_as_lockstep(case), "lockstep-order")
         elif kind == "heap-e2e":
             case = make_heap_case(rng, "heap-e2e-%d-%d" % (idx, j))
             run_e2e(ctx, case, "e2e-many")
@@ -1517,6 +1716,10 @@ def corpus_cases():
 
 def run_case(ctx, case, tag=""):
     modes = case.get("modes", ["lockstep", "e2e"])
+    if "order" in modes:
+        run_order(ctx, case, "order" + tag if tag else "corpus-order")
+        run_lockstep(ctx, order_as_lockstep(case), "corpus" + tag)
+        return
     if "lockstep" in modes:
         run_lockstep(ctx, case, "corpus" + tag)
     if "e2e" in modes and is_disciplined(case["actions"]):
@@ -1533,10 +1736,12 @@ def run(ctx):
     core.run_shards(ctx, "harness.c16", "shard_corpus", [0])
     if ctx.quick:
         specs = [("lock", i, 14, 40) for i in range(10)] + [("e2e", i, 5, 36) for i in range(6)] + \
-                [("heap", i, 16, 0) for i in range(16)] + [("heap-e2e", i, 8, 0) for i in range(6)]
+                [("heap", i, 8, 0) for i in range(16)] + [("heap-e2e", i, 5, 0) for i in range(6)] + \
+                [("order", i, 8, 0) for i in range(8)]
     else:
         specs = [("lock", i, 150, 60) for i in range(20)] + [("e2e", i, 50, 60) for i in range(12)] + \
-                [("heap", i, 120, 0) for i in range(16)] + [("heap-e2e", i, 40, 0) for i in range(8)]
+                [("heap", i, 120, 0) for i in range(16)] + [("heap-e2e", i, 40, 0) for i in range(8)] + \
+                [("order", i, 80, 0) for i in range(12)]
     core.run_shards(ctx, "harness.c16", "shard", specs)
 
 
@@ -1544,7 +1749,8 @@ def search(ctx):
     """the correspondence or an obligation is broken and the oracle has not failed yet:
     disciplined timelines only (where the property prescribes exact counts), more of them,
     both at component level and end to end"""
-    specs = [("e2e", 100 + i, 12, 50) for i in range(8)] + [("lock", 100 + i, 30, 50) for i in range(8)]
+    specs = [("e2e", 100 + i, 12, 50) for i in range(8)] + [("lock", 100 + i, 30, 50) for i in range(8)] + \
+            [("order", 100 + i, 20, 0) for i in range(8)]
     sub = core.Ctx(ctx.prop, ctx.tier, ctx.seed)
     sub.model_ok = False
     core.run_shards(sub, "harness.c16", "shard_search", specs)
@@ -1557,6 +1763,11 @@ def shard_search(ctx, spec):
     ctx.model_ok = False
     rng = ctx.sub_rng("c16/search/%s/%d" % (kind, idx))
     for j in range(n):
+        if kind == "order":
+            run_order(ctx, make_order_case(rng, "search-order-%d-%d" % (idx, j)), "search-order")
+            if ctx.failures:
+                return
+            continue
         case = make_case(rng, True, nact, "search-%s-%d-%d" % (kind, idx, j))
         if kind == "lock":
             run_lockstep(ctx, case, "search")
